@@ -1091,6 +1091,25 @@ def c19(res, tier, seed, lib):
             continue  # streaming commands: still printing complete lines when stopped, no verdict on termination here
         res.check(rc in (0, 1, 2), "huge-count-exit-0-1-2", "cli:" + argv[0], " ".join(argv),
                   "rc=%s stderr=%r" % ("still running after 90 s" if rc == -999 else rc, strip_sgr(err)[:160]))
+    # ---- stderr that cannot be written (full device, reader gone): still exit 0/1/2, never a panic ----
+    if os.path.exists("/dev/full"):
+        for argv in [[b"\xff"], [b"color", b"red", b"\xfe"], [b"color", b"nope"], [b"--nosuchflag"], [b"lighten", b"x", b"red"], [b"color", b"red"],
+                     [b"distinct", b"-v", b"2"], [b"format", b"hex", b"pick"], [b"gradient", b"-n", b"1", b"red", b"blue"]]:
+            for kind in ["full", "closed-reader"]:
+                if kind == "full":
+                    with open("/dev/full", "wb") as ef:
+                        p = subprocess.run([BIN] + argv, stdin=subprocess.DEVNULL, stdout=subprocess.PIPE, stderr=ef, env=base_env(None), timeout=60)
+                    rc = p.returncode
+                else:
+                    r, w = os.pipe()
+                    os.close(r)
+                    p = subprocess.Popen([BIN] + argv, stdin=subprocess.DEVNULL, stdout=subprocess.PIPE, stderr=w, env=base_env(None))
+                    os.close(w)
+                    p.communicate(timeout=60)
+                    rc = p.returncode
+                inp = "%r with stderr %s" % (argv, kind)
+                res.case(inp)
+                res.check(rc in (0, 1, 2), "exit-0-1-2-with-unwritable-stderr", "cli:main", inp, "rc=%s" % rc)
     # ---- the program name is not an argument: a non-UTF-8 argv[0] must not change anything ----
     for argv in [["color", "red"], ["format", "hex", "blue"], ["lighten", "0.1", "green"]]:
         ref = run_cli(argv)
